@@ -181,9 +181,17 @@ func handleExceptionSignal(vm *r.VM, blockModule *r.Module, catchBlock []*syntax
 	// try to find if the blockErr is an exception signal
 	exception, realErr := extractSignalValue(blockErr, zerr.SigTypeException)
 
-	// so, if the blockErr is not an exception signal, return it directly
+	// if the blockErr is not an exception signal, it may still be a runtime fault
+	// (e.g. division by zero, index out of range), which is catchable as 异常
 	if realErr != nil {
-		return nil, realErr
+		switch e := realErr.(type) {
+		case *zerr.RuntimeError:
+			exception = value.NewException(e.Error())
+		case *value.Exception:
+			exception = e
+		default:
+			return nil, realErr
+		}
 	}
 
 	// by default, we use "异常" to match *value.Exception type exceptions
